@@ -525,6 +525,21 @@ let () =
              (match old id, List.find_opt (fun n -> n.sid = id) news with
               | Some x, Some x' when not exn ->
                 check_ok x' op;
+                (* the flag after a mutator, as Partially_Reduced_Product_inlines.hh has it *)
+                let yflag () = (match c.t with y :: _ -> (match old (int_of_string y) with Some s -> s.flag | None -> true) | [] -> true) in
+                let expected_flag = (match op with
+                  | "add_constraint" | "refine_with_constraint" | "add_constraints" | "refine_with_constraints" | "add_congruence"
+                  | "refine_with_congruence" | "refine_with_congruences" | "intersection_assign" | "difference_assign" | "affine_image"
+                  | "affine_preimage" | "generalized_affine_image" | "generalized_affine_preimage" -> Some false
+                  | "upper_bound_assign" | "upper_bound_assign_if_exact" | "time_elapse_assign" | "unconstrain" -> Some true
+                  | "topological_closure_assign" | "add_space_dimensions_and_embed" | "add_space_dimensions_and_project"
+                  | "remove_higher_space_dimensions" -> Some x.flag
+                  | "concatenate_assign" -> Some (x.flag && yflag ())
+                  | "assign" -> Some (yflag ())
+                  | _ -> None) in
+                (match expected_flag with
+                 | Some b -> incr checks; if x'.flag <> b then fail "flag/model" (Printf.sprintf "reduced flag is %b after %s, the transcribed member leaves it %b" x'.flag op b)
+                 | None -> ());
                 let dim = x.dim in
                 let mo = meet_of x and mn = meet_of x' in
                 let argm () = let y = nexti c in match old y with Some s -> s | None -> raise (Syntax "unknown arg") in
